@@ -23,7 +23,11 @@ func BuildEvy() (string, error) {
 		}
 	}
 	bin := filepath.Join(scratch, "evy")
-	cmd := exec.Command("go", "build", "-o", bin, ".")
+	args := []string{"build"}
+	if os.Getenv("VERIF_COVER") != "" { // only for measuring the reach of the generators (DESIGN 9.4), never set by bin/check
+		args = append(args, "-cover")
+	}
+	cmd := exec.Command("go", append(args, "-o", bin, ".")...)
 	cmd.Dir = RepoDir()
 	cmd.Env = append(os.Environ(), "GOFLAGS=-mod=mod", "GOPROXY=off", "GOSUMDB=off", "GOTOOLCHAIN=local", "CGO_ENABLED=0")
 	out, err := cmd.CombinedOutput()
@@ -132,23 +136,26 @@ func RunC18(d *Driver) *Report {
 		name, content string
 		mode          os.FileMode
 		symlink       bool // the path given to evy fmt is a symbolic link to the file
+		formatted     string // for a txtar archive: the archive with its .evy members formatted
 	}
 	files := []tf{
-		{"a.evy", "x:=1\nprint   x\n", 0o644, false},
-		{"b.evy", "func  f   n:num\n  print n  // c\nend\n\n\n\nf 1\n", 0o755, false},
-		{"c.evy", "print 1\n", 0o600, false},
-		{"d.evy", "a := [1\n 2\n   3]\nfor i:=range a\nprint i\nend\n", 0o664, false},
-		{"link.evy", "y:=2\nprint   y\n", 0o644, true},
-		{"ro.evy", "if true\nprint 1\nelse\nprint 2\nend\n", 0o444, false}, // read-only for everybody
-		{"ro2.evy", "z:=3\nprint   z\n", 0o400, false},
-		{"wide.evy", "w:=4\nprint   w\n", 0o666, false},
+		{"a.evy", "x:=1\nprint   x\n", 0o644, false, ""},
+		{"b.evy", "func  f   n:num\n  print n  // c\nend\n\n\n\nf 1\n", 0o755, false, ""},
+		{"c.evy", "print 1\n", 0o600, false, ""},
+		{"d.evy", "a := [1\n 2\n   3]\nfor i:=range a\nprint i\nend\n", 0o664, false, ""},
+		{"link.evy", "y:=2\nprint   y\n", 0o644, true, ""},
+		{"ro.evy", "if true\nprint 1\nelse\nprint 2\nend\n", 0o444, false, ""}, // read-only for everybody
+		{"ro2.evy", "z:=3\nprint   z\n", 0o400, false, ""},
+		{"wide.evy", "w:=4\nprint   w\n", 0o666, false, ""},
+		{"arch.txtar", "notes\n-- a.evy --\nx:=1\nprint   x\n-- keep.txt --\nkeep   this  as it is\n-- b.evy --\nif true\nprint 1\nend\n", 0o640, false,
+			"notes\n-- a.evy --\nx := 1\nprint x\n-- keep.txt --\nkeep   this  as it is\n-- b.evy --\nif true\n    print 1\nend\n"},
 	}
 	if Thorough() {
 		big := "x := 0\n"
 		for i := 0; i < 3000; i++ {
 			big += fmt.Sprintf("x  =  x +  %d\n", i)
 		}
-		files = append(files, tf{"big.evy", big, 0o640, false}, tf{"e.evy", "if true\nprint 1\nelse\nprint 2\nend\n", 0o555, false}, tf{"f.evy", "print   1\n", 0o775, false}, tf{"g.evy", "print   2\n", 0o464, false})
+		files = append(files, tf{"big.evy", big, 0o640, false, ""}, tf{"e.evy", "if true\nprint 1\nelse\nprint 2\nend\n", 0o555, false, ""}, tf{"f.evy", "print   1\n", 0o775, false, ""}, tf{"g.evy", "print   2\n", 0o464, false, ""})
 	}
 	faults := []string{"error=ENOSPC", "error=EIO", "error=EACCES", "signal=KILL"}
 	r.Rule = fmt.Sprintf("the evy binary is rebuilt from the working tree; for %d source files of different modes (one reached through a symbolic link) and every file-system system call of `evy fmt -w` after the target has been read (found with a fault-free strace run), each of %v is injected with `strace -e inject=…:when=k`: afterwards the file must hold its original or the complete formatted text with unchanged permission bits, and exit status 0 must mean formatted. The fault-free system-call sequence is compared with the call list the Lean theorems are about. Also: unparsable files untouched with non-zero status; `fmt -c` exits 0 exactly for formatted input and writes nothing, also over several files in every order; -w on stdin rejected. Non-trivial = distinct (file, syscall, occurrence, fault)", len(files), faults)
@@ -177,6 +184,9 @@ func RunC18(d *Driver) *Report {
 		}
 		// the formatted text: from a plain run on stdin
 		fr := runProc(20*time.Second, f.content, bin, "fmt")
+		if f.formatted != "" {
+			fr = procResult{Stdout: f.formatted}
+		}
 		if fr.Exit != 0 {
 			r.Disagree(Case{Stream: "fmt-stdin", Input: f.content, Real: fr.Stderr})
 			continue
@@ -295,6 +305,9 @@ func RunC18(d *Driver) *Report {
 				check(inj, pr)
 			}
 		}
+		if f.formatted != "" {
+			continue // check mode on archives: the txtar stream below
+		}
 		// check mode
 		restore()
 		pc := runProc(20*time.Second, "", bin, "fmt", "-c", path)
@@ -335,6 +348,17 @@ func RunC18(d *Driver) *Report {
 		}
 		if pr.Exit == 0 || string(mustRead(path)) != bad || wrote != "" {
 			r.Violation(Case{Stream: "unparsable", Input: bad, Real: fmt.Sprintf("exit=%d content=%q write-class call=%q", pr.Exit, string(mustRead(path)), wrote), Spec: "a file that does not parse is left untouched with a non-zero exit status"})
+		}
+	}
+	// an archive with one member that does not parse: nothing is written
+	{
+		bad := "-- a.evy --\nx:=1\nprint   x\n-- b.evy --\nprint (\n"
+		path := filepath.Join(dir, "bad.txtar")
+		os.WriteFile(path, []byte(bad), 0o644) //nolint
+		pr := runProc(30*time.Second, "", bin, "fmt", "-w", path)
+		r.Count("unparsable:txtar", true)
+		if pr.Exit == 0 || string(mustRead(path)) != bad {
+			r.Violation(Case{Stream: "unparsable", Input: bad, Real: fmt.Sprintf("exit=%d content=%q", pr.Exit, string(mustRead(path))), Spec: "an archive with a member that does not parse is left untouched with a non-zero exit status"})
 		}
 	}
 	// -w without files
